@@ -32,7 +32,10 @@ type c13Case struct {
 	// Twins: that many identical probe connections arrive back to back (no
 	// settling in between): the first makes the others arrive "while that peer
 	// already has an inbound connection in progress"
-	Twins  int     `json:"twins,omitempty"`
+	Twins int `json:"twins,omitempty"`
+	// Mapped: the probe's IPv4 addresses are presented in IPv4-mapped IPv6 form
+	// (what a dual-stack listener reports); the same address, the same verdict
+	Mapped bool    `json:"mapped,omitempty"`
 	Delays []int64 `json:"delays,omitempty"`
 }
 
@@ -210,10 +213,14 @@ func c13Prop(t *testing.T, r *hx.Run) func(c c13Case) hx.Verdict {
 				ests = nil
 			}
 			evBefore := w.Rec.Len()
-			probe := w.Inbound(c.Src, c.Dst)
+			connect := w.Inbound
+			if c.Mapped {
+				connect = w.InboundMapped
+			}
+			probe := connect(c.Src, c.Dst)
 			var twins []*memnet.Conn
 			for k := 0; k < c.Twins; k++ {
-				twins = append(twins, w.Inbound(c.Src, c.Dst))
+				twins = append(twins, connect(c.Src, c.Dst))
 			}
 			w.Settle()
 			if len(twins) > 0 {
@@ -343,6 +350,7 @@ func genC13(rt *rapid.T) c13Case {
 	default:
 		c.Dst = right
 	}
+	c.Mapped = rapid.IntRange(0, 4).Draw(rt, "mapped") == 0
 	if rapid.IntRange(0, 3).Draw(rt, "twins") == 0 {
 		c.Twins = rapid.IntRange(1, 3).Draw(rt, "ntwins")
 		if rapid.Bool().Draw(rt, "delays") {
